@@ -16,7 +16,11 @@ use crate::rng::TestRng;
 use crate::{scn, Scenario};
 
 pub fn scenarios() -> Vec<Scenario> {
-    vec![scn!(scenario_rerandomized_signing, 3), scn!(scenario_rerandomized_cheaters_and_threshold, 2)]
+    vec![
+        scn!(scenario_rerandomized_signing, 3),
+        scn!(scenario_rerandomized_cheaters_and_threshold, 2),
+        crate::wrap::scn_rerandomized(1),
+    ]
 }
 
 struct RrSession<C: Suite> {
